@@ -246,12 +246,13 @@ structure Result where
   tree : Inl
   errs : List Err
 
-/-- after the loop: final text, "Unbalanced '{'", `return stack[0]` -/
+/-- after the loop: final text, "Unbalanced '{'", `return stack[0]` (the element created as
+`Element(tagName)`, here `para`) -/
 def finish (text : List Char) (start : Nat) (st : St) : Result :=
   let top := if start < text.length then st.top.push (.text (text.drop start)) else st.top
   let errs := if st.rest.isEmpty then st.errs else st.errs ++ [⟨.unbalancedOpen, top.openAt⟩]
   let root := st.rest.foldl (fun child parent => parent.push (.elem child.tag child.children)) top
-  ⟨.elem root.tag root.children, errs⟩
+  ⟨.elem .para root.children, errs⟩
 
 /-- the `while 1:` loop: `_BRACE_RE.search(text, start)` is the scan over the characters from index
 `i`; `cs` is `text[i:]`. -/
@@ -547,12 +548,17 @@ parameter of the documented function (`name in self.types`) / of the class const
 structure Shape where
   hasArg : Bool
   paramExists : Bool
+  /-- the argument names a variable that is assigned in the module/class body or documented by an
+  `ivar`/`cvar`/`var` field of the same docstring (so the `Attribute` has a kind and is displayed) -/
+  attrKnown : Bool
 
 structure Outcome where
   /-- heading of `FieldHandler.format()` under which the field's body is displayed -/
   heading : Option String
   /-- the body is handed to an `Attribute` (created or annotated), or becomes the object's `parsed_type` -/
   toAttr : Bool
+  /-- that attribute has a kind, i.e. it is part of the documentation (`kind is None` = not visible) -/
+  attrShown : Bool
   /-- `field.report(...)` / `obj.report(...)` is certainly called for this field -/
   reported : Bool
   /-- the handler function is one the model knows -/
@@ -567,7 +573,7 @@ def paramNotFoundReports (k : ObjKind) (s : Shape) : Bool :=
 
 /-- the `handle_*` functions, by `__name__`, during `format_docstring` -/
 def handler (fn : String) (k : ObjKind) (s : Shape) : Outcome :=
-  let shown (h : String) (rep : Bool) : Outcome := ⟨some h, false, rep, true⟩
+  let shown (h : String) (rep : Bool) : Outcome := ⟨some h, false, false, rep, true⟩
   let unexpectedArg := s.hasArg      -- _report_unexpected_argument
   if fn = "handle_return" then shown "Returns" unexpectedArg
   else if fn = "handle_yield" then shown "Yields" unexpectedArg
@@ -575,15 +581,15 @@ def handler (fn : String) (k : ObjKind) (s : Shape) : Outcome :=
   else if fn = "handle_yieldtype" then shown "Yields" unexpectedArg
   else if fn = "handle_type" then
     match k with
-    | .attr => ⟨none, true, s.hasArg, true⟩
+    | .attr => ⟨none, true, true, s.hasArg, true⟩
     | .function =>
-      if s.hasArg then shown "Parameters" (paramNotFoundReports k s) else ⟨none, false, true, true⟩
-    | .module | .cls => ⟨none, false, false, true⟩      -- left to extract_fields
+      if s.hasArg then shown "Parameters" (paramNotFoundReports k s) else ⟨none, false, false, true, true⟩
+    | .module | .cls => ⟨none, false, false, false, true⟩      -- left to extract_fields
   else if fn = "handle_param" then
-    if s.hasArg then shown "Parameters" (paramNotFoundReports k s) else ⟨none, false, true, true⟩
+    if s.hasArg then shown "Parameters" (paramNotFoundReports k s) else ⟨none, false, false, true, true⟩
   else if fn = "handle_keyword" then
-    if s.hasArg then shown "Parameters" (k = .function && s.paramExists) else ⟨none, false, true, true⟩
-  else if fn = "handled_elsewhere" then ⟨none, false, false, true⟩
+    if s.hasArg then shown "Parameters" (k = .function && s.paramExists) else ⟨none, false, false, true, true⟩
+  else if fn = "handled_elsewhere" then ⟨none, false, false, false, true⟩
   else if fn = "handle_raises" then shown "Raises" (!s.hasArg)
   else if fn = "handle_warns" then shown "Warns" false
   else if fn = "handle_seealso" then shown "See Also" false
@@ -591,25 +597,28 @@ def handler (fn : String) (k : ObjKind) (s : Shape) : Outcome :=
   else if fn = "handle_author" then shown "Author" false
   else if fn = "handle_since" then shown "Present Since" false
   else if fn = "handleUnknownField" then shown "Unknown Field" true
-  else ⟨none, false, false, false⟩
+  else ⟨none, false, false, false, false⟩
 
 /-- `extract_fields(obj)` (called by the AST builder for modules and classes that have a docstring):
-`(attribute, reported)` -/
-def extractFields (tag : String) (k : ObjKind) (s : Shape) : Bool × Bool :=
+`(handed to an attribute, that attribute has a kind, reported)` -/
+def extractFields (tag : String) (k : ObjKind) (s : Shape) : Bool × Bool × Bool :=
   match k with
   | .module | .cls =>
-    if tag = "ivar" || tag = "cvar" || tag = "var" || tag = "type" then
-      if s.hasArg then (true, false) else (false, true)
-    else (false, false)
-  | .function | .attr => (false, false)
+    if tag = "ivar" || tag = "cvar" || tag = "var" then
+      if s.hasArg then (true, true, false) else (false, false, true)     -- sets `attrobj.kind`
+    else if tag = "type" then
+      if s.hasArg then (true, s.attrKnown, false) else (false, false, true)
+    else (false, false, false)
+  | .function | .attr => (false, false, false)
 
 /-- everything that happens to a field `@tag` of an object of kind `k` -/
 def outcome (tag fn : String) (k : ObjKind) (s : Shape) : Outcome :=
   let h := handler fn k s
   let x := extractFields tag k s
-  { h with toAttr := h.toAttr || x.1, reported := h.reported || x.2 }
+  { h with toAttr := h.toAttr || x.1, attrShown := h.attrShown || x.2.1, reported := h.reported || x.2.2 }
 
 /-- the field is not lost: displayed under a heading, given to an attribute, or reported -/
-def Outcome.kept (o : Outcome) : Bool := o.modelled && (o.heading.isSome || o.toAttr || o.reported)
+def Outcome.kept (o : Outcome) : Bool :=
+  o.modelled && (o.heading.isSome || (o.toAttr && o.attrShown) || o.reported)
 
 end Fields
